@@ -93,17 +93,23 @@ def enc_hdr(version, length, flags, cmd, app, hbh, e2e):
 
 
 # ----------------------------------------------------------------------------- AVP shapes
-def generic_avp_shape(data=None, vendor=None):
+def stale_padding():
+    """the `_padding` slot is a CACHE written by the constructor / the stream parser (the padding the AVP had
+    then); it may be out of date by the time the AVP is measured or serialised: None or any 0..3 bytes"""
+    return T.OneOf(T.NoneS, T.Bytes(maxlen=3))
+
+
+def generic_avp_shape(data=None, vendor=None, padding=None):
     """exact DiameterAVP instance satisfying the representation invariant:
     code 4 bytes, flags 1 byte, vendor None|4 bytes, data None|bytes"""
     return T.Obj(B.DiameterAVP, slots={
         "_code": T.Bytes(4), "_flags": T.Bytes(1),
         "_vendor_id": vendor if vendor is not None else T.OneOf(T.NoneS, T.Bytes(4)),
         "_data": data if data is not None else T.OneOf(T.NoneS, T.Bytes()),
-        "_padding": T.NoneS})
+        "_padding": padding if padding is not None else T.NoneS})
 
 
-def dict_avp_shape(cls=None, data=None, vendor=None):
+def dict_avp_shape(cls=None, data=None, vendor=None, padding=None):
     """schematic dictionary-class instance: the class attributes `code`/`vendor_id` shadow the
     DiameterAVP properties, so those two live in the instance dict; everything else is inherited
     (checked for all registered classes by the C10 override scan)"""
@@ -112,13 +118,13 @@ def dict_avp_shape(cls=None, data=None, vendor=None):
         "_flags": T.Bytes(1),
         "_vendor_id": T.OneOf(T.NoneS, T.Bytes(4)),
         "_data": data if data is not None else T.OneOf(T.NoneS, T.Bytes()),
-        "_padding": T.NoneS},
+        "_padding": padding if padding is not None else T.NoneS},
         idict={"code": T.Bytes(4),
                "vendor_id": vendor if vendor is not None else T.OneOf(T.NoneS, T.Bytes(4))})
 
 
-def any_avp_shape():
-    return T.OneOf(generic_avp_shape(), dict_avp_shape())
+def any_avp_shape(padding=None):
+    return T.OneOf(generic_avp_shape(padding=padding), dict_avp_shape(padding=padding))
 
 
 ANY_VALUE = lambda: T.OneOf(T.Int(), T.Bytes(), T.NoneS, T.Str(), T.Bool(), T.OpaqueS())   # noqa: E731
